@@ -101,6 +101,19 @@ class Spec:
 
     def initial(self):
         out = [("initial-acked", self._fresh(True)), ("initial-outstanding", self._fresh(False))]
+        if self.side == "localrep":
+            # a stream that has received 1000 bytes the application has not acknowledged: a lowered INITIAL_WINDOW_SIZE may
+            # take its window below zero when it is acknowledged - legal (RFC 7540 6.9.2), the ACK must simply be accepted
+            st = self._fresh(True)
+            h = st.h
+            if self.client:
+                ops = (h.api("send_headers", 1, H.ni(H.REQ_POST)), h.rx([wire.headers(1, sb(H.RESP))]), h.rx([wire.data(1, b"d" * 1000)]))
+            else:
+                ops = (h.rx([wire.headers(1, sb(H.REQ_POST))]), h.rx([wire.data(1, b"d" * 1000)]))
+            for o in ops:
+                assert o.kind == "ok", o.brief()
+            st.existing = "busy-stream"
+            out.append(("stream-with-1000-unacknowledged-bytes", st))
         if not self.client and self.side == "remote":
             # existing streams whose send windows a received INITIAL_WINDOW_SIZE must adjust at once: an open one, one
             # half-closed (remote) and a promised one (reserved) - nothing has been sent on any of them
@@ -217,6 +230,22 @@ class Spec:
                         "ACK of frame %r (outstanding %d): SettingsAcknowledged %s" % (frame, outstanding, "; ".join(problems)),
                         initial_outstanding=(outstanding > 0 and h is not None and lab == "rxack" and frame.get(MHLS) == 65536 and len(frame) == 7),
                         n_outstanding=min(outstanding, 3))
+            if evs and not viols:
+                # the event is the application's: a later acknowledgement (here: on a copy of the connection, for another
+                # setting) must neither change it nor repeat its contents
+                snap = {int(k): (v.original_value, v.new_value) for k, v in evs[0].changed_settings.items()}
+                c2 = pickle.loads(pickle.dumps(h.conn))
+                o2a = H.call(c2, "update_settings", {0x77: 5})
+                o2 = H.recv(c2, wire.settings([], ack=True).serialize()) if o2a.kind == "ok" else None
+                if o2 is not None and o2.kind == "ok" and not st.sent:
+                    e2 = [e for e in o2.events if type(e).__name__ == "SettingsAcknowledged"]
+                    now = {int(k): (v.original_value, v.new_value) for k, v in evs[0].changed_settings.items()}
+                    if now != snap:
+                        bad("settings-ack-event-mutated", "a later SettingsAcknowledged changed the earlier event from %r to %r" % (snap, now))
+                    elif e2 and any(int(k) != 0x77 for k in e2[0].changed_settings):
+                        bad("settings-ack-wrong-changes", "ACK of update_settings({0x77: 5}) reported %r" % (
+                            {int(k): (v.original_value, v.new_value) for k, v in e2[0].changed_settings.items()},),
+                            initial_outstanding=False, n_outstanding=1)
             out = "rxack-%d" % min(outstanding, 3)
         elif lab.startswith("rxs:"):
             pairs = self.rmenu[lab[4:]]
@@ -279,6 +308,8 @@ class Spec:
             # a dynamic table size update; every probe block is "the next block"
             return (b"\x20" if cur[HTS] < 4096 else b"") + sb(headers)
 
+        if st.existing == "busy-stream":
+            return          # (its point is that acknowledgements are accepted; nothing to probe on clones)
         if st.existing == "upgraded":
             import hpack
             c = pickle.loads(blob)
